@@ -91,7 +91,9 @@ impl Monitor for C10 {
         tier.pick(2_000, 20_000)
     }
     fn generate(&self, r: &mut Rng, _tier: Tier, i: u64) -> C10Case {
-        let exhaustive = i % 10 == 0;
+        // under Miri (small mode) a schedule tree of thousands of solves would take hours
+        let small = crate::report::small();
+        let exhaustive = i % 10 == 0 && !small;
         let (name, mut cfg) = pick_family(r, FAMILIES);
         if exhaustive {
             cfg.npkg = 3;
@@ -106,6 +108,10 @@ impl Monitor for C10 {
         // one run in which helper threads complete the provider futures (cross-thread wake-ups)
         if r.chance(1, 3) {
             policies.push(Policy::Threads(r.next()));
+        }
+        if small {
+            policies.truncate(2);
+            policies.push(Policy::Random(r.next()));
         }
         C10Case { family: name.into(), u, p, pause_mask: random_pause_mask(r), policies, exhaustive, activity: if r.chance(1, 4) { Some(gener::activity_params(r)) } else { None } }
     }
